@@ -15,10 +15,12 @@ for l in open(os.path.join(HERE, "properties.jsonl")):
 assert prop, pid
 W = f"/tmp/mut_{pid}{hint and '_' + hint}"
 O = W + "_out"
+T = os.environ.get("MUT_TARGET", W + "/target")
 print(f"""You are helping to evaluate a verification effort for rust-libp2p by playing the role of a developer who
 introduces a realistic defect. Work ONLY inside the scratch git worktree {W} (a checkout of rust-libp2p)
 and write your results to {O}/ (create it). Never touch /repo or /verif, never read /verif, there is no network
-(always pass --offline to cargo and set CARGO_NET_OFFLINE=true; use CARGO_TARGET_DIR={W}/target).
+(always pass --offline to cargo and set CARGO_NET_OFFLINE=true; use CARGO_TARGET_DIR={T}; that directory may be shared with other people working on other copies, so builds can
+wait for a lock - that is normal, do not delete or clean it).
 
 The semantic property below is supposed to hold for rust-libp2p:
 
